@@ -5,7 +5,13 @@ prop("C02", "fault_enumeration",
      "exactly one handshake datagram (discoverable: ClientHello, ServerHello, ClientAck, ServerAuth, ClientAuth; hidden: "
      "ClientRequestHidden, ServerResponseHidden): xor mask at EVERY byte offset (quick: masks 0x01/0x80, plus 0xff near the edges; thorough: every single-bit mask and "
      "0xff), truncation to a length (quick: every 5th length plus edges; thorough: every length), truncation after the complete "
-     "datagram was first sent to the server from a third address (primes its shared read buffer), extension by 1/16 bytes (informational only - the statement does not cover "
+     "datagram was first sent to the server from a third address (primes its shared read buffer), removal of the last byte of a datagram whose "
+     "last byte EQUALS what the receiver's buffer already holds at that offset (a receiver that parses past the received length is fooled exactly "
+     "then; the client's buffer cannot be primed - it reads one datagram per step - and message bytes cannot be chosen, so the harness chooses the "
+     "HANDSHAKE: for every message of both modes and both receivers up to 2400 successive handshakes of fresh clients run against one server, the "
+     "harness keeps an image of the receiver's buffer (client: every datagram it wrote or read, from offset 0; server: every datagram it read), "
+     "lets each handshake whose target datagram does not end in the residue complete unaltered - it must, with fresh keys - and truncates the first "
+     "one that does: 1 in 256, a miss has probability 0.01 % and is labelled), extension by 1/16 bytes (informational only - the statement does not cover "
      "trailing additions), replacement by the same-numbered datagram of another handshake (same / other client identity), "
      "and - for every datagram that carries a session id (ServerAuth, ClientAuth, ServerResponseHidden) - the four id bytes overwritten with the id of "
      "ANOTHER session living on the same server (an established session of the same / another client, or a half-open handshake "
